@@ -144,6 +144,8 @@ pub struct GenCtx<'a> {
     pub quick_by_kind: Vec<Vec<u32>>,
     /// non-poison projection ops on the thread-local instance (slot-targeted points)
     pub tl_slot_ops: Vec<u32>,
+    /// members of each family of near-identical ops
+    pub families: Vec<Vec<u32>>,
 }
 
 impl<'a> GenCtx<'a> {
@@ -156,6 +158,7 @@ impl<'a> GenCtx<'a> {
         let mut by_kind: Vec<Vec<u32>> = Vec::new();
         let mut quick_by_kind: Vec<Vec<u32>> = Vec::new();
         let mut tl_slot_ops: Vec<u32> = Vec::new();
+        let mut fam_map: std::collections::BTreeMap<u32, Vec<u32>> = std::collections::BTreeMap::new();
         for (i, p) in pool.ops.iter().enumerate() {
             if refs[i].status != "ok" || refs[i].outcome.is_none() {
                 continue;
@@ -180,6 +183,9 @@ impl<'a> GenCtx<'a> {
                 }
             };
             by_kind[k].push(i as u32);
+            if p.family > 0 {
+                fam_map.entry(p.family).or_default().push(i as u32);
+            }
             if p.poison.is_none() && matches!(p.op, Op::Forward { t: crate::ops::Target::Tl, .. } | Op::Inverse { t: crate::ops::Target::Tl, .. }) {
                 tl_slot_ops.push(i as u32);
             }
@@ -187,7 +193,8 @@ impl<'a> GenCtx<'a> {
                 quick_by_kind[k].push(i as u32);
             }
         }
-        GenCtx { pool, refs, usable, by_group, poison_by_group, cheap, kinds, by_kind, quick_by_kind, tl_slot_ops }
+        let families: Vec<Vec<u32>> = fam_map.into_values().filter(|v| v.len() >= 2).collect();
+        GenCtx { pool, refs, usable, by_group, poison_by_group, cheap, kinds, by_kind, quick_by_kind, tl_slot_ops, families }
     }
 }
 
@@ -230,6 +237,7 @@ pub fn generate(g: &GenCtx, seed: u64) -> Scenario {
     let rekey_on = rng.pct(40);
     let churn_on = rng.pct(55);
     let sandwich_on = rng.pct(60);
+    let siblings_on = rng.pct(50);
     if rng.pct(55) {
         for s in 0..a5::verif::site::COUNT {
             if rng.pct(50) {
@@ -326,6 +334,20 @@ pub fn generate(g: &GenCtx, seed: u64) -> Scenario {
                 steps.push(Step { op: a, repeat: 1, rekey: None });
                 steps.push(Step { op: p, repeat: 1, rekey });
                 steps.push(Step { op: a, repeat: 1, rekey: None });
+                continue;
+            }
+            if siblings_on && !g.families.is_empty() && rng.pct(22) {
+                // near-identical calls back to back: A, A', (A'',) A
+                let f = &g.families[rng.below(g.families.len() as u64) as usize];
+                let a = intern(&mut sc, *rng.pick(f));
+                steps.push(Step { op: a, repeat: 1, rekey: None });
+                for _ in 0..rng.range(1, 3) {
+                    let b = intern(&mut sc, *rng.pick(f));
+                    steps.push(Step { op: b, repeat: 1, rekey });
+                }
+                if rng.pct(60) {
+                    steps.push(Step { op: a, repeat: 1, rekey: None });
+                }
                 continue;
             }
             let ix = if !poison_sub.is_empty() && rng.pct(10) { *rng.pick(&poison_sub) } else { *rng.pick(&sub) };
